@@ -32,7 +32,8 @@ def _run_chunk(args):
     from .. import stmt_drv as d
     out = []
     for c in cases:
-        sql = R.render(c["prog"], R.Opts(alias_scope=c.get("alias_scope", "global"), isub_form=c.get("isub_form", "plain")))
+        sql = R.render(c["prog"], R.Opts(alias_scope=c.get("alias_scope", "global"), isub_form=c.get("isub_form", "plain"),
+                                         merge_direct=c.get("merge_direct", False), sub_with=c.get("sub_with", False)))
         for dia in dialects:
             if dia != "ansi" and not d.accepts(sql, dia):
                 out.append(None)
@@ -69,10 +70,13 @@ def generate(chk, quick, seed):
                             schemas=("none",), maxcte=0),
                 "generate: subqueries in ON conditions, nested set operations", workers=1, coverage=False, timeout=5000)
     cases += [c for c in r.cases("CASE") if any(e["e"] in ("on", "ubranch") for e in c["prog"]) or sum(1 for e in c["prog"] if e["e"] == "where") >= 2]
-    r = chk.tlc("Stmt", cfg(chk, "genw", 8, kinds=("update", "merge", "delete"), known=ALL_DEV, emit=True, clauses={"where"}, tbl=("a",), ctes=("x",),
+    r = chk.tlc("Stmt", cfg(chk, "genw", 8, kinds=("update", "merge", "delete"), known=ALL_DEV, emit=True, clauses={"where"}, tbl=("a",), ctes=("a",),
                             maxrel=2),
-                "generate: WITH in front of UPDATE / MERGE / DELETE", workers=1, coverage=False, timeout=5000)
-    cases += [c for c in r.cases("CASE") if any(e["e"] == "cte" for e in c["prog"])]
+                "generate: WITH in front of UPDATE / MERGE / DELETE (the CTE named like a table)", workers=1, coverage=False, timeout=5000)
+    wc = [c for c in r.cases("CASE") if any(e["e"] == "cte" for e in c["prog"])]
+    cases += wc
+    # MERGE whose source query is one table or CTE: also written with the source named directly
+    cases += [dict(c, merge_direct=True) for c in wc if c["prog"][0]["a"] == "merge"]
     r = chk.tlc("Stmt", cfg(chk, "genw2", 10, kinds=("insert",), known=ALL_DEV, emit=True, clauses={"where", "where2"}, tbl=("a", "b"), ctes=("x",),
                             schemas=("none",), maxcte=0, maxrel=1, maxdepth=1),
                 "generate: subqueries on both sides of a comparison in WHERE", workers=1, coverage=False, timeout=5000)
@@ -197,7 +201,12 @@ def run(chk):
     if quick:
         rnd_.shuffle(nested)
         nested = nested[:1500]
-    cases = cases + multi + nested
+    # ... and the programs with derived tables once more with every derived table carrying a WITH clause of its own
+    subw = [dict(c, sub_with=True) for c in cases if any(e["e"] == "sub" for e in c["prog"])]
+    if quick:
+        rnd_.shuffle(subw)
+        subw = subw[:1500]
+    cases = cases + multi + nested + subw
     pool = mp.Pool(16)
     try:
         res = pool.map(_run_chunk, [(c, ["ansi"]) for c in chunks(cases, 64)])
